@@ -2,47 +2,45 @@
    Only the property theorems; each is closed by `exact` of a lemma of Proofs/C09Proofs.v and followed
    by Print Assumptions.  Model: Model/ServerLife.v (all handler programs, all cause sequences, all
    schedules: `run_ops ops init` ranges over every list of operations, `Run c i` being the scheduler).
-   Three full-strength statements are FALSE of the faithful model; they are kept in comments next to
+   Two full-strength statements are FALSE of the faithful model; they are kept in comments next to
    their refutation and their strongest true part. *)
 From Coq Require Import List Bool Arith.
 From GV Require Import Model.ServerLife Proofs.C09Proofs Proofs.C09Examples.
 Import ListNotations.
 
 (* ---- (1) a reset touches one stream only ------------------------------------------------------ *)
-(* RST_STREAM for (c,i) leaves every other task, the server record and the waiter untouched; of the
-   connections only the `crashed` mark (an exception escaping data_received) may change *)
+(* RST_STREAM for (c,i), in EVERY state: every other task, every connection, the server record and the
+   waiter are untouched -- in particular nothing is raised out of data_received (Handler.cancel pops
+   with a default; the former KeyError window D91 is repaired) *)
 Theorem C09_rst_isolated : forall s c i,
   exists g, tasks (step s (Rst c i)) = map g (tasks s) /\
             (forall t, is_key c i t = false -> g t = t) /\
-            srv (step s (Rst c i)) = srv s /\ wst (step s (Rst c i)) = wst s /\
-            Forall2 conn_same_but_crashed (conns s) (conns (step s (Rst c i))).
+            conns (step s (Rst c i)) = conns s /\
+            srv (step s (Rst c i)) = srv s /\ wst (step s (Rst c i)) = wst s.
 Proof. exact rst_isolated. Qed.
 Print Assumptions C09_rst_isolated.
 
-(* FULL (false):  forall reachable s, conns (step s (Rst c i)) = conns s   -- "a reset never raises".
-   Refuted: Handler.cancel does `self._tasks.pop(stream)`; the stream of a task that was cancelled by
-   Server.close() before it ever ran is still registered until its done-callback runs, and the 10th
-   accept may already have collected the finished task out of _tasks: KeyError out of data_received. *)
-Theorem C09_rst_isolated_refuted :
-  exists ops c i k, nth_error (conns (run_ops ops init)) c = Some k /\ crashed k = false /\
-                    exists k', nth_error (conns (step (run_ops ops init) (Rst c i))) c = Some k' /\
-                               crashed k' = true.
-Proof. exact rst_isolated_refuted. Qed.
-Print Assumptions C09_rst_isolated_refuted.
-
-(* PARTIAL: while the handler of the reset stream is in flight (any phase before Finished) nothing is
-   raised, and the first reset cancels exactly that task: pending CancelledError, moved from _tasks to
-   _cancelled, nothing delivered yet *)
-Theorem C09_rst_in_flight_partial : forall ops c i t,
+(* the first reset of a stream whose handler is in flight cancels exactly that task: pending
+   CancelledError, moved from _tasks to _cancelled, nothing delivered yet *)
+Theorem C09_rst_cancels_target : forall ops c i t,
   let s := run_ops ops init in
   find_task c i (tasks s) = Some t -> unfinished t = true ->
-  conns (step s (Rst c i)) = conns s /\
-  (conn_open s c = true -> h2reset t = false ->
-   exists t', find_task c i (tasks (step s (Rst c i))) = Some t' /\
-              cancel_req t' = true /\ in_tasks t' = false /\ in_cancelled t' = true /\
-              ncancel t' = ncancel t /\ ph t' = ph t).
-Proof. exact rst_in_flight_partial. Qed.
-Print Assumptions C09_rst_in_flight_partial.
+  conn_open s c = true -> h2reset t = false ->
+  exists t', find_task c i (tasks (step s (Rst c i))) = Some t' /\
+             cancel_req t' = true /\ in_tasks t' = false /\ in_cancelled t' = true /\
+             ncancel t' = ncancel t /\ ph t' = ph t.
+Proof. exact rst_cancels_target. Qed.
+Print Assumptions C09_rst_cancels_target.
+
+(* a reset for a stream whose task is already done (collected from _tasks or not, stream not yet
+   released) cancels and delivers nothing *)
+Theorem C09_rst_noop_for_finished : forall t,
+  unfinished t = false ->
+  ph (rst_task t) = ph t /\ cancel_req (rst_task t) = cancel_req t /\ ncancel (rst_task t) = ncancel t /\
+  nhit (rst_task t) = nhit t /\ registered (rst_task t) = registered t /\ nrel (rst_task t) = nrel t /\
+  cb_pending (rst_task t) = cb_pending t /\ late (rst_task t) = late t.
+Proof. exact rst_noop_for_finished. Qed.
+Print Assumptions C09_rst_noop_for_finished.
 
 (* ---- (2) each cause delivers one CancelledError ----------------------------------------------- *)
 (* over any history, a handler never sees more CancelledErrors than there were causes *)
@@ -139,6 +137,17 @@ Theorem C09_wait_closed_safe : forall ops,
   wst (run_ops ops init) = WDone -> forall t, In t (tasks (run_ops ops init)) -> ph t = Finished.
 Proof. exact wait_closed_safe. Qed.
 Print Assumptions C09_wait_closed_safe.
+
+(* neither GC (Handler.__gc_collect__ on every 10th accept, Server.__gc_collect__ on every 10th accepted
+   connection) ever loses a live handler: an unfinished task is always in _tasks or _cancelled, its
+   Handler is always in Server._handlers, and once the connection is closed the task is in _cancelled *)
+Theorem C09_handlers_kept : forall ops t,
+  In t (tasks (run_ops ops init)) -> unfinished t = true ->
+  (in_tasks t = true \/ in_cancelled t = true) /\
+  exists k, conn_at (run_ops ops init) (tc t) = Some k /\ in_handlers k = true /\
+            (proc_open k = false -> in_cancelled t = true).
+Proof. exact handlers_kept. Qed.
+Print Assumptions C09_handlers_kept.
 
 (* PARTIAL (needs: every connection is gone -- the Python 3.12 condition of asyncio.Server.wait_closed) *)
 Theorem C09_wait_closed_live : forall s,
